@@ -1,4 +1,5 @@
 import J5V.Conc.SchedProofs
+import J5V.Conc.SchedLocal
 import J5V.Conc.CacheProofs
 import J5V.Generated.LocksFacts
 /-!
@@ -76,6 +77,21 @@ theorem C10_serialisable (wv : WriteFn) (l : Nat) (p : Prog) (h : OpsProg l p) (
   · have := hdone i ti hti
     subst this
     simp [opsShape] at hshi
+
+/-- The same when threads also take local steps between their operations (the work a goroutine does
+with what a call returned): the results — shared memory and everything each thread has read — of a
+completed run are those of a sequential execution of the operations in some order. -/
+theorem C10_serialisable_local (wv : WriteFn) (l : Nat) (p : Prog) (h : OpsProgT l p) (sched : List Nat)
+    (hdone : AllDone (run wv p sched)) :
+    ∃ order, (run wv p sched).mem = (runSeq wv (stripProg p) order).mem ∧
+      (run wv p sched).logs = (runSeq wv (stripProg p) order).logs := by
+  obtain ⟨sched', hrel⟩ := rel_runFrom wv l sched (init p) (init (stripProg p)) (rel_init l p) (tinv_init l p h)
+  have hdone' := rel_allDone l _ _ hrel hdone
+  obtain ⟨order, ho⟩ := C10_serialisable wv l (stripProg p) (opsProg_strip l p h) sched' hdone'
+  obtain ⟨_, hm, hlg, _, _⟩ := hrel
+  refine ⟨order, ?_, ?_⟩
+  · rw [← ho]; exact hm.symm
+  · rw [← ho]; exact hlg.symm
 
 /-! ## The cache -/
 
@@ -208,6 +224,14 @@ theorem C10_code_race_free (wv : WriteFn) (gs : List (List Access))
   obtain ⟨g, hg, rfl⟩ := List.mem_map.mp ht
   exact codeThread_guarded g (h g hg)
 
+/-- The literal form: the thread that performs every protected access site of the table once is
+guarded by lock 0 (= `mu`). -/
+theorem C10_code_allGuardedBy : AllGuardedBy 0 [codeThread protectedAccesses] := by
+  intro t ht
+  simp only [List.mem_singleton] at ht
+  subst ht
+  exact codeThread_guarded protectedAccesses (fun _ h => h)
+
 /-! ## Non-vacuity -/
 
 /-- a real race: two threads, unguarded write and read of the same location -/
@@ -234,6 +258,8 @@ example : let s := run (fun _ _ _ => 0) [[.lock 0, .lock 1, .unlock 1, .unlock 0
 
 /-- operations as critical sections -/
 example : OpsProg 0 [[.lock 0, .read 1, .write 1, .unlock 0, .lock 0, .write 2, .unlock 0], [.lock 0, .read 1, .write 1, .unlock 0]] := by decide
+
+example : OpsProgT 0 [[.tau, .lock 0, .read 1, .write 1, .unlock 0, .tau, .tau, .lock 0, .write 2, .unlock 0, .tau], [.lock 0, .read 1, .unlock 0]] := by decide
 
 /-- the table has protected accesses, and a thread built from them is a genuine locked program -/
 example : protectedAccesses.length > 10 := by decide
